@@ -1,3 +1,4 @@
+\* plans over 4 slot ids: 1,280 distinct / 1,535,906 generated, ~3.5 min with 4 workers
 SPECIFICATION Spec
 CONSTANTS
   Hs = {4, 5}
